@@ -89,7 +89,9 @@ checks, na = [], []
 TABLES = (" Second tie, by translation: tools/extract.py regenerates lean/MicroHttp/Extracted.lean from /repo's source on every run and "
           "Props/Tables.lean proves (by kernel evaluation) that the model uses the same {what}; an item the translator cannot find falls back to the differential run.")
 EXTRA = {
- "C04": TABLES.format(what="BUFFER_SIZE, MAX_PAYLOAD_SIZE and CRLF_LEN") + " The default limit (never set) is probed on connections and servers as well.",
+ "C04": TABLES.format(what="BUFFER_SIZE, MAX_PAYLOAD_SIZE and CRLF_LEN") +
+        " The texts that reach a client in a 400 body are translated too: every `write!` arm of the Display impls of RequestError / HttpHeaderError becomes a template (literal pieces and holes numbered by the binding printed there), the &'static str arguments are collected from the construction sites and the format! of server.rs gives prefix and suffix; "
+        "display_request_error_templates / display_header_error_templates / invalid_*_texts / bad_request_prefix / bad_request_suffix tie them to the model's constants and request_error_display / header_error_display prove the model's Display is the instance of the variant's template for EVERY error value. The default limit (never set) is probed on connections and servers as well.",
  "C05": TABLES.format(what="status / version tables, default server identity, Allow delimiter and writer literals") +
         " Moreover the writer functions of response.rs (StatusLine::write_all, ResponseHeaders::{write_allow_header, write_deprecation_header, write_all}, Response::{write_body, write_all}) are translated "
         "statement by statement into a Lean function and Tables.response_writer proves it equal to the model's piece list for EVERY response.",
@@ -99,9 +101,9 @@ EXTRA = {
         " The header rules are also written out in Rust from the property text (rule_block) and evaluated on every generated block, so a divergence comes with a concrete failing block.",
  "C16": TABLES.format(what="method / version / media-type / status tables (both directions) and HTTP_SCHEME_PREFIX"),
  "C18": TABLES.format(what="MAX_CONNECTIONS and the size of the event array (MAX_CONNECTIONS + 2)"),
- "C06": " Extended to histories that also read: read_preserves_unsent (a read with ANY recv result — data, end of stream, errno, a parse error and its reset — leaves the partly written response and the queue untouched and only appends the interim responses it queues) and history_prefix_io (the prefix law over every history of enqueue / write / read / pop / clear); the correspondence interleaves accepted, rejected, partial and pipelined input with queued output.",
+ "C06": " By translation: HttpConnection::pending_write is translated from connection.rs into a Lean predicate and Tables.pending_write_pred proves it equal to the model's on EVERY state. Extended to histories that also read: read_preserves_unsent (a read with ANY recv result — data, end of stream, errno, a parse error and its reset — leaves the partly written response and the queue untouched and only appends the interim responses it queues) and history_prefix_io (the prefix law over every history of enqueue / write / read / pop / clear); the correspondence interleaves accepted, rejected, partial and pipelined input with queued output.",
  "C12": " Extended to the pop side (Props/C12Pop.lean): read_ignores_queue (a read appends to the queue of completed requests and never looks at it) and pop_timing_irrelevant (for ANY interleaving of pops with the reads, the requests handed out followed by those still queued are the queue of the run without pops: same requests, same descriptors, same order); the correspondence replays a quarter of its histories with the pops delayed.",
- "C07": " The suite srv-fault injects, at the libc boundary of the harness process (interposed recvmsg/write, nothing in /repo instrumented), reads that end or fail on a plain IN event and writes that return zero / EINTR / EAGAIN / EPIPE / short counts; a 500 must reach only a client whose read failed.",
+ "C07": " By translation: ClientConnection::is_done is translated from server.rs into a Lean predicate over the model's state and Tables.is_done_pred proves it equal to the model's on EVERY state (an expression the translator does not understand falls back to the differential run). The suite srv-fault injects, at the libc boundary of the harness process (interposed recvmsg/write, nothing in /repo instrumented), reads that end or fail on a plain IN event and writes that return zero / EINTR / EAGAIN / EPIPE / short counts; a 500 must reach only a client whose read failed.",
  "C09": " The suite srv-fault injects, at the libc boundary of the harness process (interposed recvmsg/write, nothing in /repo instrumented), reads that end or fail on a plain IN event and writes that return zero / EINTR / EAGAIN / EPIPE / short counts: the poll must keep returning normally, the witness must be served in full, and a connection the server was told has ended must be released once answered.",
 }
 ENUM_CONN = " Small-scope suite conn-enum: every sequence of up to 4 (thorough: 5) operations of one connection over a 19-letter alphabet (request pieces with and without descriptors, an Expect head and its body bytes, empty read, end of stream, pop, enqueue, full / short / interrupted / failed write, clear) — 137 560 histories replayed on the model op by op, with panic, output-prefix and descriptor oracles on the implementation."
